@@ -1092,6 +1092,14 @@ def build():
         for r in rows:
             if 'cls' in r:
                 r['cid'] = cid(r['cls'], r['cctx'])
+            if r['kind'] == 'array' and r['idxpos'] is not None:
+                cq = qual(r['cls'])
+                if cq not in construct:
+                    classes.setdefault(cq, r['cls'])
+                    decide(cq, r['cls'])
+                if construct[cq][0] != 'rows':
+                    # the entries are black boxes (or coefficient arrays): the index their container assigns is not visible to the model
+                    r['idxpos'], r['labels'], r['idxname'] = None, [], None
         tables[key] = rows
     # reachability from the roots (python classes, any context)
     reach = set()
